@@ -283,6 +283,12 @@ def oracle(ctx, ops, go_out):
 
 def post(ctx, ops, model_out, go_out):
     if model_out and go_out:
+        bad_runs = set()
+        for i, (m, g) in enumerate(zip(model_out, go_out)):
+            if m != g:
+                bad_runs.add(id(ops[i][2]))
+        ctx.coverage["traces_validated_against_impl"] = sum(
+            1 for r in ctx._udp_runs if r["mode"] == "d" and id(r) not in bad_runs)
         for i, (m, g) in enumerate(zip(model_out, go_out)):
             if m != g:
                 run = ops[i][2]
@@ -293,7 +299,9 @@ def post(ctx, ops, model_out, go_out):
 
 
 def run(ctx):
-    ctx.level = "partial"
+    ctx.notes["claim"] = ("partial: the theorems are about the abstract protocol model; the 3000-line transport is tied to it by the "
+                          "per-command correspondence only (not covered: uint32 wrap-around, handshake/generations/restarts, encryption, "
+                          "timer/resend machinery beyond 'any sliced chunk may be (re)sent', non-stream-like reassembly, real concurrency)")
     standard_run(
         ctx, props=PROPS, family=FAMILY, consts=["Udp"], go_runner=go_runner, gen_ops=gen_ops, oracle=oracle,
         corr_name="corr:C36:udp", model_args=(str(ctx.scratch / "udp.events"),), post=post,
